@@ -17,7 +17,14 @@ SpectroscopicSightLineGroup, SpectroscopicFibreOpticGroup, BolometerCamera):
   * foreign objects (not instances of the group's member type) are offered through every membership path;
   * observe(): members get counting pipelines (sub-classes of Raysect's PowerPipeline0D / PowerPipeline2D counting
     initialise/finalise) in a tiny world; after k group.observe() calls every member must have been observed k times;
-  * random histories of add / assign-members / rename / broadcast / wrong-length / lookup / read ops.
+  * random histories of add / assign-members / rename / broadcast / wrong-length / lookup / read ops;
+  * aliasing monitor: every caller-owned mutable container handed to the group (constructor argument, observers=,
+    sight_lines=, foil_detectors=, every broadcast attribute assigned from a list / ndarray incl. nested per-member
+    lists) is edited in place by the "caller" right after the call (append a foreign object and a valid observer,
+    overwrite, reverse, pop, insert; ndarrays overwritten in place) and the complete observable group state (members
+    and order, len, parents, name lookup, every getter, whole member snapshots) must stay exactly as it was; add_*()
+    must not change lists the caller passed earlier; one list given to two groups must not couple them; containers
+    returned by getters / slice lookup are mutated and the group must be unaffected.
 
 The oracle shares no code with cherab: expectations are computed from the case description and from values read
 directly from the member observers (Raysect objects).
@@ -33,7 +40,9 @@ RULE = ("fixed sweep: one case per (group class, discovered group attribute, gro
         "tuple / ndarray(where the setter names it) and wrong-length (n-1, n+1, 0, 2n) assignments with whole-member "
         "snapshots, plus foreign-type x membership-path cases, lookup cases and observe cases per class; random part: "
         "histories of 5-30 add / assign-members / rename / broadcast / wrong-length / lookup / read ops on groups of 0-6 "
-        "members with diversified initial member state, random observe cases and random foreign cases; a case is "
+        "members with diversified initial member state (every list/ndarray the harness hands over is afterwards edited in "
+        "place and the group state re-compared; getter results are mutated; shared-list two-group cases), random observe "
+        "cases and random foreign cases; a case is "
         "non-trivial when at least one deciding comparison ran on a group with >= 1 member (or a foreign / wrong-length "
         "rejection was judged); distinct = distinct fully expanded op lists")
 LEVEL_TEXT = ("Exploration by runtime monitoring: the real setters/getters/mutators of all seven classes are executed on "
